@@ -3,6 +3,7 @@ import TM.Keys
 import TM.Mouse
 import TM.Stream
 import TM.Scrollback
+import TM.Mirror
 /-!
 # Driver — line-protocol executable running the model in lock-step with the harness.
 
@@ -60,6 +61,36 @@ def rowStr (r : Row) : String :=
   " ".intercalate ((rleCells r []).map fun (n, c) => toString n ++ "*" ++ cellStr c)
 
 def natsStr (l : List Nat) : String := if l.isEmpty then "-" else ",".intercalate (l.map toString)
+
+/-! ### parsing rows (the harness sends real screen rows for the `mirror` command) -/
+
+def natOfHex (s : String) : Option Nat :=
+  s.toList.foldl (fun acc c => acc.bind fun a => (hexVal c).map fun v => a * 16 + v) (some 0)
+
+def styOfStr (s : String) : Option Style :=
+  match s.splitOn "." with
+  | [a, b, c] => do
+    let x ← natOfHex a; let y ← natOfHex b; let z ← natOfHex c
+    pure ⟨BitVec.ofNat 32 x, BitVec.ofNat 32 y, BitVec.ofNat 32 z⟩
+  | _ => none
+
+def cellOfStr (s : String) : Option Cell :=
+  match s.splitOn "/" with
+  | [g, st] => do
+    let sty ← styOfStr st
+    if g = "~" then pure ⟨.cont, sty⟩
+    else match g.splitOn ":" with
+      | [hx, w] => do let b ← bytesOfHex hx; pure ⟨.ch b w.toNat!, sty⟩
+      | _ => none
+  | _ => none
+
+/-- inverse of `rowStr`; runs are separated by `_` on the command line -/
+def rowOfStr (s : String) : Option Row :=
+  if s = "-" then some [] else
+  (s.splitOn "_").foldl (fun acc part => acc.bind fun r =>
+    match part.splitOn "*" with
+    | [n, c] => (cellOfStr c).map fun cell => r ++ List.replicate n.toNat! cell
+    | _ => none) (some [])
 
 def scrLine (tag : String) (s : Scr) (k : Kbd) : String :=
   s!"{tag} {s.w} {s.h} {s.cx} {s.cy} {s.sx} {s.sy} {s.top} {s.bot} {if s.wrap then 1 else 0} {styStr s.sty} {k.flags} {natsStr k.stack}"
@@ -239,6 +270,24 @@ partial def loop (wt : WidthTable) (h : IO.FS.Stream) (d : DState) : IO Unit := 
     let o ← IO.getStdout
     o.putStrLn s!"{r.start} {r.stop} {r.data.length} {hexOrDash r.view}"; o.flush
     loop wt h { d with rbuf := r }
+  | ["mirror", w, hh, x, y, x2, y2, cx, cy, showCur, focused, attached, op, rows] =>
+    -- the model of `TTYFrontend` applied to the real inner screen sent by the harness:
+    -- `op` = attach | region:x:y:x2:y2 | cursor | detach
+    let grid := (rows.splitOn "|").map fun r => (rowOfStr r).getD []
+    let sc : Scr := { w := w.toNat!, h := hh.toNat!, grid := grid, cx := cx.toNat!, cy := cy.toNat!,
+                      sx := 0, sy := 0, top := 0, bot := hh.toNat! - 1, wrap := false, sty := Style.default }
+    let reg : MRegion := ⟨x.toNat!, y.toNat!, x2.toNat!, y2.toNat!⟩
+    let m : Mirror := { attached := attached = "1", region := reg, cx := cx.toNat!, cy := cy.toNat!,
+                        showCur := showCur = "1", focused := focused = "1" }
+    let out : Bytes := match op.splitOn ":" with
+      | ["attach"] => (m.step sc (.attach reg)).2
+      | ["region", a, b, c, e] => (m.step sc (.regionChanged ⟨a.toNat!, b.toNat!, c.toNat!, e.toNat!⟩)).2
+      | ["cursor"] => (m.step sc (.cursorMoved cx.toNat! cy.toNat!)).2
+      | ["detach"] => (m.step sc .detach).2
+      | _ => []
+    let o ← IO.getStdout
+    o.putStrLn (hexOrDash out); o.flush
+    loop wt h d
   | ["ansi", fg, bg, ul] =>
     let st : Style := ⟨BitVec.ofNat 32 fg.toNat!, BitVec.ofNat 32 bg.toNat!, BitVec.ofNat 32 ul.toNat!⟩
     let o ← IO.getStdout
